@@ -106,6 +106,10 @@ def perm(A, rows, cols):
             f"perm: shape mismatch -- A.shape={tuple(A.shape)}, "
             f"rows.shape={tuple(rows.shape)}, cols.shape={tuple(cols.shape)}"
         )
+    # NOTE: The FFI handlers decode the multiplicities as 64-bit unsigned integers.
+    rows = rows.astype(jnp.uint64)
+    cols = cols.astype(jnp.uint64)
+
     return _perm_impl(A, rows, cols)
 
 
